@@ -146,11 +146,11 @@ def searchExtVertices (inner : List (Loop α)) (processed : List Nat) :
   | extVertex :: rest, j, st =>
     searchExtVertices inner processed rest (j + 1) (searchInnerLoops extVertex j processed inner 0 st)
 
-/-- `aux.push(p).unwrap()` -/
-def pushUnwrap (aux : Loop α) (p : V3 α) (site : String) : Res (Loop α) :=
+/-- `aux.push(p)?` inside `try_get_closed_loop` (the `site` only names the call; a refused push is the `Err` itself) -/
+def pushQ (aux : Loop α) (p : V3 α) (_site : String) : Res (Loop α) :=
   match aux.push p with
   | (aux', .ok ()) => .ok aux'
-  | (_, .err _) => .panic site
+  | (_, .err e) => .err e
   | (_, .panic s) => .panic s
 
 /-- `for j in 0..n_inner_loop_vertices + 1` -/
@@ -163,7 +163,7 @@ def addInnerVertices (innerLoop : Loop α) (sameDirection : Bool) (innerVertexId
       if sameDirection then (innerVertexId + nInner - j) % nInner
       else i32AsUsize (i32Add (usizeAsI32 innerVertexId) (usizeAsI32 j)) % nInner
     let innerVertex ← innerLoop.index vertexToAdd
-    let aux ← pushUnwrap aux ⟨innerVertex.x, innerVertex.y, innerVertex.z⟩ "polygon3d.rs:get_closed_loop:push-inner.unwrap"
+    let aux ← pushQ aux ⟨innerVertex.x, innerVertex.y, innerVertex.z⟩ "polygon3d.rs:get_closed_loop:push-inner.unwrap"
     addInnerVertices innerLoop sameDirection innerVertexId nInner fuel (j + 1) aux
 
 /-- `for i in 0..n_ext_vertices` building `aux` -/
@@ -171,7 +171,7 @@ def buildAux (inner : List (Loop α)) (outerNormal : V3 α) (minExtVertexId minI
     List (V3 α) → Nat → Loop α → Res (Loop α)
   | [], _, aux => .ok aux
   | extVertex :: rest, i, aux => do
-    let aux ← pushUnwrap aux extVertex "polygon3d.rs:get_closed_loop:push-ext.unwrap"
+    let aux ← pushQ aux extVertex "polygon3d.rs:get_closed_loop:push-ext.unwrap"
     let aux ←
       if i == minExtVertexId then do
         let innerLoop ← match inner[minInnerLoopId]? with
@@ -181,7 +181,7 @@ def buildAux (inner : List (Loop α)) (outerNormal : V3 α) (minExtVertexId minI
         let innerNormal := innerLoop.normal
         let aux ← addInnerVertices innerLoop (outerNormal.isSameDirection innerNormal) innerVertexId
           nInnerLoopVertices (nInnerLoopVertices + 1) 0 aux
-        pushUnwrap aux extVertex "polygon3d.rs:get_closed_loop:push-return.unwrap"
+        pushQ aux extVertex "polygon3d.rs:get_closed_loop:push-return.unwrap"
       else Res.ok aux
     buildAux inner outerNormal minExtVertexId minInnerLoopId innerVertexId rest (i + 1) aux
 
@@ -249,13 +249,17 @@ def closedLoopIter (pg : Polygon α) (outerNormal : V3 α) : Nat → ClosedLoopS
         { retLoop := aux, processed := st.processed ++ [s.innerLoopId],
           innerLoopId := s.innerLoopId, innerVertexId := s.innerVertexId }
 
-/-- `get_closed_loop` -/
-def getClosedLoop (pg : Polygon α) : Res (Loop α) :=
+/-- `try_get_closed_loop` -/
+def tryGetClosedLoop (pg : Polygon α) : Res (Loop α) :=
   let nInnerLoops := pg.inner.length
   let retLoop := pg.outer.open
   let outerNormal := pg.outer.normal
   closedLoopIter pg outerNormal nInnerLoops
     { retLoop := retLoop, processed := [], innerLoopId := 0, innerVertexId := 0 }
+
+/-- `get_closed_loop`: `self.try_get_closed_loop().unwrap()` -/
+def getClosedLoop (pg : Polygon α) : Res (Loop α) :=
+  pg.tryGetClosedLoop.unwrap "polygon3d.rs:get_closed_loop:unwrap"
 
 /-- the `for inner in self.inner.iter()` loop of `contains_segment` -/
 def containsSegmentInner (s : Segment α) : List (Loop α) → Res Bool
